@@ -38,7 +38,7 @@ PLAN = {
     "C04": {"quick": [native("B", 16, Q), miri("B", MQ, count=3)], "thorough": [native("B", 32, T), miri("B", MT, count=3)]},
     "C05": {"quick": [native("C", 16, Q), miri("C", MQ, count=3)], "thorough": [native("C", 32, T), miri("C", MT, count=3)]},
     "C06": {"quick": [native("C", 16, Q), miri("C", MQ, count=3)], "thorough": [native("C", 32, T), miri("C", MT, count=3)]},
-    "C07": {"quick": [native("A", 16, Q), miri("A", MQ)], "thorough": [native("A", 32, T), miri("A", MT)]},
+    "C07": {"quick": [native("A", 12, Q), native("D", 4, Q), miri("A", MQ)], "thorough": [native("A", 24, T), native("D", 8, T), miri("A", MT), miri("D", MT // 4)]},
     "C08": {"quick": [native("A", 14, Q), native("G", 2, Q), miri("A", MQ)], "thorough": [native("A", 24, T), native("G", 8, T), miri("A", MT), tsan("A", 8, 20)]},
     "C09": {"quick": [witness(0), native("D", 14, Q), native("G", 2, Q), miri("D", MQ)], "thorough": [witness(0), native("D", 24, T), native("G", 8, T), miri("D", MT)]},
     "C10": {"quick": [native("D", 16, Q), miri("D", MQ)], "thorough": [native("D", 32, T), miri("D", MT)]},
@@ -69,7 +69,7 @@ RULES = {
         "C04": "family B: 1-6 producers dispatch until Err while one thread calls stop()/close();stop()/Store::stop() with a backlog built by a gated or slow reducer, then probes every entry point; non-trivial iff >=1 dispatch overlapped the shutdown, backlog >=1 at stop.inv, and both Ok and Err results occurred; " + SCHED,
         "C05": "family C: gated stepper reducer (exact dispatch/step programs, capacities 1-16, 1-4 producers) and ungated stalls; non-trivial iff a dispatch was open at a gated quiescent point with a full queue and later returned (or, ungated, the queue was observed full); " + SCHED,
         "C06": "family C: burst n>capacity while the reducer is parked in a plug action, 1-4 producers, both drop policies, plus reducer-running variant; non-trivial iff >=1 discard was observed (gated: with the queue full at the quiescent point); " + SCHED,
-        "C07": "family A; non-trivial iff >=2 producers, >=2 pipeline phases populated and >=1 run-time registration followed by a dispatch of the registering thread; " + SCHED,
+        "C07": "families A and D; non-trivial iff >=2 producers, >=2 pipeline phases populated and (>=1 run-time registration followed by a dispatch of the registering thread, or an unsubscribe() during the stream); " + SCHED,
         "C08": "families A and G with reader threads and reads inside subscriber/middleware callbacks; non-trivial iff >=20 reads matched, one reader saw >=3 distinct positions and >=1 read was made inside a subscriber callback; " + SCHED,
         "C09": "families D, G (+ deterministic witness W0): direct/channeled/selector subscribers and iterators added and removed while 1-4 producers run; non-trivial iff an unsubscribe() interval overlapped a notification of another subscriber; " + SCHED,
         "C10": "family D: subscribed()/subscribed_with() capacity 1-4 x 3 policies, direct twin registered right after, stalled (gated) drop-policy subscriber, unsubscribe/stop at random points; non-trivial iff the subscriber's channel was full at least once (discard, delivery lagging by >= capacity, or progress while stalled); " + SCHED,
